@@ -515,8 +515,10 @@ impl AtomicCacheMetrics {
             get_count: self.get_count.load(Ordering::Relaxed),
             hit_count: self.hit_count.load(Ordering::Relaxed),
             entry_count: self.entry_count.load(Ordering::Relaxed) as u64,
-            memory_usage_mb: (self.memory_usage_bytes.load(Ordering::Relaxed) / (1024 * 1024))
-                as u32,
+            memory_usage_mb: u32::try_from(
+                self.memory_usage_bytes.load(Ordering::Relaxed) / (1024 * 1024),
+            )
+            .unwrap_or(u32::MAX),
         }
     }
 
